@@ -202,9 +202,16 @@ def _decode_item(prog, b, t):
     if is_call(v, "into", nargs=1) or is_call(v, "from", nargs=1):
         compact = True
         v = v[2][0]
-    if not (v[0] == "field" and v[1][0] == "downcast" and v[1][3] == "Ok"):
+    if v[0] == "call" and v[1]["decl"] == "core::default::Default::default":
+        raise Unrecognised("DEFAULT-SUBSTITUTION: a field is filled with Default::default() instead of being decoded "
+                           "(it is skipped on the wire, so its value cannot survive a round trip)")
+    # `X::decode(input)?` : Try::branch(result) as Continue.0
+    if v[0] == "field" and v[1][0] == "downcast" and v[1][3] == "Continue" and is_call(v[1][1], "core::ops::try_trait::Try::branch", nargs=1):
+        c = v[1][1][2][0]
+    elif v[0] == "field" and v[1][0] == "downcast" and v[1][3] == "Ok":
+        c = v[1][1]
+    else:
         raise Unrecognised("field value %s is not the Ok payload of a decode call" % path_str(t))
-    c = v[1][1]
     if not (c[0] == "call" and c[1]["decl"] == DEC + "::decode" and len(c[2]) == 1):
         raise Unrecognised("field value comes from %s" % path_str(c))
     gs = [g for g in c[1]["gargs"] if isinstance(g, int)]
@@ -219,7 +226,9 @@ def _struct_reader(prog, b, rt, adt_path, vname=None, input_ok=None):
     alts = list(rt[1]) if rt[0] == "phi" else [rt]
     oks = [a for a in alts if is_adt_agg(a, "core::result::Result", "Ok")]
     errs = [a for a in alts if is_adt_agg(a, "core::result::Result", "Err")]
-    others = [a for a in alts if a not in oks and a not in errs]
+    # `?` propagates the error through FromResidual::from_residual(Break.0)
+    resid = [a for a in alts if is_call(a, "core::ops::try_trait::FromResidual::from_residual", nargs=1)]
+    others = [a for a in alts if a not in oks and a not in errs and a not in resid]
     if len(oks) != 1 or others:
         raise Unrecognised("decode of %s: expected exactly one Ok(..) result and Err(..) results, got %s"
                            % (adt_path, [path_str(a)[:80] for a in alts]))
